@@ -58,6 +58,34 @@ func main() {
 			wg.Wait()
 		}
 	}
+	// sustained phase: the bodies that reassemble units beyond the pooled buffers' initial size run many times in 16
+	// goroutines at once (a window of a few instructions between two atomic operations is only hit under sustained
+	// concurrent traffic); fixed amount of work, not a time budget
+	for i, b := range all {
+		if !strings.Contains(b.Name, "big-payloads") && !strings.Contains(b.Name, "pool-capacity-boundary") {
+			continue
+		}
+		var wg sync.WaitGroup
+		for g := 0; g < 16; g++ {
+			wg.Add(1)
+			go func(g int) {
+				defer wg.Done()
+				for k := 0; k < 40; k++ {
+					got, prob := all[i].Run()
+					mu.Lock()
+					r.Runs++
+					if strings.Join(got, "|") != solo[i] && len(r.Mismatches) < 20 {
+						r.Mismatches = append(r.Mismatches, fmt.Sprintf("%s: results differ from the solo run (16 goroutines, sustained)", all[i].Name))
+					}
+					if prob != "" && len(r.Mismatches) < 20 {
+						r.Mismatches = append(r.Mismatches, all[i].Name+": "+prob)
+					}
+					mu.Unlock()
+				}
+			}(g)
+		}
+		wg.Wait()
+	}
 	b, _ := json.MarshalIndent(r, "", " ")
 	os.WriteFile(out, b, 0o644)
 	fmt.Printf("c16 race pass: %d runs, %d mismatches\n", r.Runs, len(r.Mismatches))
